@@ -332,6 +332,10 @@ func (m *Manager) newStream(ctx context.Context, sid uint64, kind, rpc string) (
 		return stream, nil
 
 	case <-m.sigs.term.Signal():
+		// the stream is already published, so the reader may be blocked
+		// delivering a packet to it. no one manages the stream, so it has
+		// to be canceled here or the reader would never exit.
+		stream.Cancel(m.sigs.term.Err())
 		return nil, m.sigs.term.Err()
 	}
 }
